@@ -2696,14 +2696,19 @@ vbi_format_vt_page(vbi_decoder *vbi,
 
 			case 0x0E:		/* double width */
 				printv("spacing col %d row %d double width\n", column, row);
-				if (column < (COLUMNS - 1))
+				if (column < (COLUMNS - 1)) {
+					if (VBI_DOUBLE_WIDTH != ac.size)
+						held_mosaic_unicode = 0xEE20;
 					ac.size = VBI_DOUBLE_WIDTH;
+				}
 				break;
 
 			case 0x0F:		/* double size */
 				printv("spacing col %d row %d double size\n", column, row);
 				if (column >= (COLUMNS - 1) || row <= 0 || row >= 23)
 					break;
+				if (VBI_DOUBLE_SIZE != ac.size)
+					held_mosaic_unicode = 0xEE20;
 				ac.size = VBI_DOUBLE_SIZE;
 				double_height = TRUE;
 
